@@ -461,6 +461,55 @@ func (c11) Gen(rs uint64, tier string, race bool) interface{} {
 	if t.noThr {
 		c.Threads = 1
 	}
+	if c.Stdin == "" && t.in == "nt" && strings.Contains(t.args, "{in}") && r.Chance(0.05) {
+		// "the same input" also when goalign refuses it: what the command prints and its exit status are compared all
+		// the same. A Nexus file whose TAXA block lists taxa the matrix does not hold, a FASTA file with a short row,
+		// a Phylip file cut in its last row.
+		var bad, flag string
+		switch r.Intn(3) {
+		case 0:
+			var nx strings.Builder
+			fmt.Fprintf(&nx, "#NEXUS\nBEGIN TAXA;\n DIMENSIONS NTAX=%d;\n TAXLABELS", len(nn)+3)
+			for _, k := range r.Perm(len(nn) + 3) {
+				if k < len(nn) {
+					nx.WriteString(" " + nn[k])
+				} else {
+					fmt.Fprintf(&nx, " absent%d", k)
+				}
+			}
+			fmt.Fprintf(&nx, ";\nEND;\nBEGIN CHARACTERS;\n DIMENSIONS NCHAR=%d;\n FORMAT DATATYPE=dna GAP=- MISSING=*;\n MATRIX\n", len(ns[0]))
+			for i := range nn {
+				fmt.Fprintf(&nx, "%s %s\n", nn[i], ns[i])
+			}
+			nx.WriteString(";\nEND;\n")
+			bad, flag = nx.String(), "-x"
+		case 1:
+			short := append([]string{}, ns...)
+			short[len(short)-1] = short[len(short)-1][:len(short[0])/2]
+			bad, flag = fastaOf(nn, short), ""
+		default:
+			ph := phylipOf(nn, ns)
+			bad, flag = ph[:len(ph)-len(ns[0])/2-1], "-p"
+		}
+		c.Files["refused.in"] = bad
+		var na []string
+		for k := 0; k < len(c.Args); k++ {
+			if c.Args[k] == "-p" {
+				continue
+			}
+			if c.Args[k] == "-i" && k+1 < len(c.Args) {
+				na = append(na, "-i", "refused.in")
+				if flag != "" {
+					na = append(na, flag)
+				}
+				k++
+				continue
+			}
+			na = append(na, c.Args[k])
+		}
+		c.Args = na
+		c.Key += " (input refused)"
+	}
 	return c
 }
 
